@@ -78,16 +78,23 @@ def check_kind_exhaustiveness(ctx):
                 k = _kind_of(st.value)
                 if k:
                     built["multi" if ctxvar else "single"].add(k)
+            elif isinstance(st, ast.Return) and st.value is not None:
+                k = _kind_of(st.value)  # the classification may live in a helper that returns the dim
+                if k:
+                    built["multi" if ctxvar else "single"].add(k)
             elif isinstance(st, (ast.For, ast.While, ast.Try)):
                 for b in (getattr(st, "body", []), getattr(st, "orelse", []), getattr(st, "finalbody", [])):
                     walk(b, ctxvar)
 
-    # only the classification chain (after the modifier loop): statements of the per-token loop
-    loops = [x for x in mk.body if isinstance(x, ast.For)]
-    need(loops, "_make_array_cached: per-token loop not found")
-    for st in loops[0].body:
-        if isinstance(st, ast.If) and isinstance(st.test, ast.Compare) and norm(st.test.left) == "dim_type":
-            walk([st], None)
+    # the classification chain on the dim type (in the parser itself or in a helper it calls)
+    chains = []
+    for fn_ in [x for x in m.all_functions(include_typeguard=False) if x.module.short == "_array_types"]:
+        for st in ast.walk(fn_.node):
+            if isinstance(st, ast.If) and isinstance(st.test, ast.Compare) and norm(st.test.left) == "dim_type" and "_DimType" in norm(st.test):
+                chains.append(st)
+    tops = [c for c in chains if not any(c in p_.orelse for p_ in chains)]
+    need(tops, "C01.1: the classification chain on the dim type was not found")
+    walk(tops, None)
     # fixed / symbolic with variadic raise before -> single
     for k in list(built["multi"]):
         pass
